@@ -372,7 +372,7 @@ theorem sanClassCore_good (s : Str) : GoodTok (sanClassCore s) := by
 
 /-- The part of `sanClass` after `sanClassCore`. -/
 def classPost (c : Str) : Str :=
-  if isKeyword ((digitGuard c).map lowerA) || isReserved ((digitGuard c).map lowerA)
+  if isKeyword ((digitGuard c).map lowerA) || isKeyword (digitGuard c) || isReserved ((digitGuard c).map lowerA)
   then digitGuard c ++ ['_'] else digitGuard c
 
 theorem sanClass_eq (s : Str) : sanClass s = classPost (sanClassCore s) := rfl
@@ -388,34 +388,19 @@ theorem sanClass_isPyIdent (s : Str) : isPyIdent (sanClass s) = true := by
   rw [sanClass_eq]
   exact classPost_isPyIdent _ (sanClassCore_good s)
 
-theorem classPost_keyword (c : Str) (h : isKeyword (classPost c) = true) :
-    c = "None".toList ∨ c = "True".toList ∨ c = "False".toList := by
-  unfold classPost at h
-  split at h
-  · rw [not_isKeyword_append_us] at h; cases h
+/-- Since the repair of F28 the result is never a keyword: either the guard fired (a name ending in `_` is no keyword) or the
+    name itself was tested. -/
+theorem classPost_not_keyword (c : Str) : isKeyword (classPost c) = false := by
+  unfold classPost
+  split
+  · exact not_isKeyword_append_us _
   · rename_i hcond
     simp only [Bool.or_eq_true, not_or, Bool.not_eq_true] at hcond
-    have hl := hcond.1
-    -- the digit guard cannot have fired: no keyword starts with `_`
-    rcases digitGuard_cases c with hg | hg
-    · rw [hg] at h hl
-      have := List.all_eq_true.1 kw_lower_or_special c ((isKeyword_iff _).1 h)
-      simp only [Bool.or_eq_true, beq_iff_eq, hl] at this
-      rcases this with ((h | h) | h) | h
-      · cases h
-      · exact .inl h
-      · exact .inr (.inl h)
-      · exact .inr (.inr h)
-    · rw [hg, not_isKeyword_us_cons] at h; cases h
+    exact hcond.1.2
 
-theorem sanClass_keyword_iff (s : Str) :
-    isKeyword (sanClass s) = true ↔
-      (sanClassCore s = "None".toList ∨ sanClassCore s = "True".toList
-        ∨ sanClassCore s = "False".toList) := by
+theorem sanClass_not_keyword (s : Str) : isKeyword (sanClass s) = false := by
   rw [sanClass_eq]
-  constructor
-  · exact classPost_keyword _
-  · rintro (h | h | h) <;> rw [h] <;> decide
+  exact classPost_not_keyword _
 
 /-! ### Method names -/
 
